@@ -10,6 +10,7 @@ without charset / window tables.  End-to-end: PAGE XML + logits -> rebuilt layou
 Oracle: a plain dict id -> (matrix, charset, window).
 """
 import copy
+import re
 import itertools
 import os
 import pickle
@@ -370,7 +371,6 @@ def check_e2e(case, ctx):
             ctx.violation('rebuilt-layout-redecodes-identically', f'{ID}/e2e/redecoding-differs/{name}',
                           f'{desc}: original {t1}, stored in PAGE XML {saved_text}, re-decoded from saved artefacts {t2}')
             return
-        import re
         w1 = re.findall(r'CONTENT="([^"]*)"', alto1)
         w2 = re.findall(r'CONTENT="([^"]*)"', alto2)
         if w1 != w2:
@@ -379,6 +379,33 @@ def check_e2e(case, ctx):
         if [w for t in t1 for w in t.split()] != w1:
             ctx.violation('rebuilt-layout-exports-same-alto', f'{ID}/e2e/alto-words-not-the-transcription', f'{desc}: {t1} vs {w1}')
             return
+        # the ALTO export with a confidence threshold (min_line_confidence): the original carries the page parser's line confidences at full
+        # precision, PAGE XML stores them with three decimals - the lines that pass the threshold must be the same for both
+        from pero_ocr.document_ocr.page_parser import PageParser
+        conf_page = copy.deepcopy(orig)
+        for l in conf_page.lines_iterator():
+            l.transcription_confidence = float(PageParser.compute_line_confidence(l))
+        cxml, cblob = conf_page.to_pagexml_string(), conf_page.save_logits_bytes()
+        cs = [l.transcription_confidence for l in conf_page.lines_iterator()]
+        probe = copy.deepcopy(conf_page)
+        probe.to_altoxml_string()
+        ms = [l.transcription_confidence for l in probe.lines_iterator()]          # what the export itself estimates
+        grid = sorted({0.5} | {v for c in cs + ms if c is not None for v in (c, round(c, 3))}) if name == 'greedy' else []
+        for thr in grid:
+            a = copy.deepcopy(conf_page)
+            b = PageLayout()
+            b.from_pagexml_string(cxml)
+            b.load_logits(cblob)
+            wa = re.findall(r'CONTENT="([^"]*)"', a.to_altoxml_string(min_line_confidence=thr))
+            wb = re.findall(r'CONTENT="([^"]*)"', b.to_altoxml_string(min_line_confidence=thr))
+            ctx.executed(2)
+            if wa != wb:
+                ctx.violation('rebuilt-layout-exports-same-alto', f'{ID}/e2e/alto-differs-under-a-confidence-threshold/{name}',
+                              f'{desc}: line confidences {cs} (PAGE XML stores three decimals), ALTO export with min_line_confidence={thr!r}: '
+                              f'original exports {wa}, layout rebuilt from PAGE XML + logits exports {wb}')
+                return
+            if 0 < len(wa) < len(w1):
+                ctx.tag('confidence-threshold-drops-some-lines')
         # history: the saved logits are loaded into a layout object that has ALREADY been decoded and exported with other logits on the
         # same line ids (a second engine's, here: the lines' matrices swapped); every consumer must then see the loaded ones
         if len(texts) == 2 and texts[0] != texts[1]:
@@ -473,5 +500,5 @@ def describe(tier):
         'bounds': BOUNDS[tier],
         'alphabets': {'matrices': MATS, 'charsets': CHARSETS, 'windows': WINDOWS},
         'assumptions': ['no stored entry is exactly 0.0 (precondition of the format)', 'line ids never equal the table keys'],
-        'min_nontrivial': 100, 'required_tags': ['multi-line-pages', 'missing-component-cases', 'end-to-end-pages', 'filter-splits-the-page', 'logits-loaded-into-a-used-layout', 'more-than-nine-lines', 'explicit-zeros-and-other-sparse-formats'],
+        'min_nontrivial': 100, 'required_tags': ['confidence-threshold-drops-some-lines', 'multi-line-pages', 'missing-component-cases', 'end-to-end-pages', 'filter-splits-the-page', 'logits-loaded-into-a-used-layout', 'more-than-nine-lines', 'explicit-zeros-and-other-sparse-formats'],
     }
